@@ -53,6 +53,9 @@ const FAULTS: &[(&str, bool)] = &[
     ("kill-after-partial-output", true),
     ("exit1-after-partial-output", true),
     ("slow-ok", true),
+    ("fail-once-partial-then-real", true),
+    ("exit1-noisy-stderr-0", true),
+    ("exit1-noisy-stderr-1", true),
     ("truncated-ok", false),
     ("garbage-ok", false),
     ("invalid-utf8-ok", true),
@@ -254,6 +257,18 @@ fn stub_script(fault: &str, real: &str, cat: &str, head: &str, sleep: &str) -> O
         "kill-after-partial-output" => format!("{cat} >/dev/null\nprintf 'pub const SOURCE'\nkill -9 $$\n"),
         "exit1-after-partial-output" => format!("{cat} >/dev/null\nprintf 'pub const SOURCE'\nexit 1\n"),
         "slow-ok" => format!("{sleep} 2\nexec {real} \"$@\"\n"),
+        // the FIRST invocation by one generator process prints a prefix and dies, later ones work: a generator that retries must not
+        // keep what the failed run printed (the unchanged code calls the formatter once and falls back)
+        "fail-once-partial-then-real" => format!(
+            "f=\"$0.seen.$PPID\"\nif [ -e \"$f\" ]; then exec {real} \"$@\"; fi\n: > \"$f\"\n{cat} >/dev/null\nprintf 'pub const SOURCE'\nkill -9 $$\n"
+        ),
+        // fails after reading, with a long non-ASCII diagnostic on stderr (2-, 3- and 4-byte characters; the two variants shift every
+        // character boundary by one byte): whatever the generator does with the formatter's stderr must not matter
+        "exit1-noisy-stderr-0" | "exit1-noisy-stderr-1" => {
+            let prefix = if fault.ends_with('1') { "E" } else { "" };
+            let noise = format!("{prefix}{}{}{}", "\u{e9}".repeat(150), "\u{65e5}\u{672c}".repeat(80), "\u{1f600}".repeat(60));
+            format!("{cat} >/dev/null\nprintf '%s\\n' '{noise}' >&2\nprintf '%s\\n' 'error: {noise}' >&2\nexit 1\n")
+        }
         "truncated-ok" => format!("{real} \"$@\" | {head} -c 100\nexit 0\n"),
         "garbage-ok" => format!("{cat} >/dev/null\nprintf 'fn ('\nexit 0\n"),
         "invalid-utf8-ok" => format!("{cat} >/dev/null\nprintf '\\377\\376'\nexit 0\n"),
